@@ -74,6 +74,16 @@ PROPS["C10"] = dict(level="fault_enumeration", race=False, tiers={
     "thorough": [dict(variant="enum", runs=2 * 2 * 3 * 2 * 6 * 2400, budget_s=3000), dict(variant="", runs=4000000, budget_s=1500)],
 })
 
+PROPS["C01"] = dict(level="exploration", race=False, tiers={
+    "quick": [dict(variant="", runs=1600, budget_s=100)],
+    "thorough": [dict(variant="", runs=120000, budget_s=3000)],
+})
+
+PROPS["C03"] = dict(level="exploration", race=False, tiers={
+    "quick": [dict(variant="", runs=400, budget_s=100)],
+    "thorough": [dict(variant="", runs=20000, budget_s=3300)],
+})
+
 RULES = {}
 ASSUME = {}
 
